@@ -91,12 +91,15 @@ def print_axioms(module, theorems):
 
 # ----------------------------------------------------------------------------- harness
 
+TRAMP_SRC = ("tramp.asm",)
+
+
 def harness_bin(name, variant="default", extra_src=(), libs=("-lcrypto",), cflags=()):
     """compile harness/<name>.c against the library built from the current tree (cached next to it)"""
     b = build_repo.get_build(variant)
     srcs = [os.path.join(HARNESS, name + ".c")] + [os.path.join(HARNESS, s) for s in extra_src]
     h = hashlib.sha256()
-    for s in srcs + [os.path.join(HARNESS, "common.h")]:
+    for s in srcs + [os.path.join(HARNESS, x) for x in ("common.h", "tramp.h", "guard.h", "sens.h")]:
         if os.path.exists(s):
             h.update(open(s, "rb").read())
     h.update(" ".join(cflags).encode())
